@@ -144,6 +144,11 @@ def run_property(pid, calls, tier, seed, replay_path, doc_assumptions=()):
         run_model(ck, wd, calls, 3 if tier == 'quick' else 4, tier)
         cases = enum_cases(calls, smax, tier, seed, sub=(3 if tier == 'quick' else 1))
     v, exe, tpath = replay(ck, wd, cases, seed, smax, '%s configurations x seeded matrix (%d cases, domain <= %d)' % ('/'.join(calls), len(cases), 1 << smax))
+    if not replay_path:
+        big_rej, bexe, binp, bcases = big_replay(ck, wd, calls, seed, tier)
+        for key, case in big_rej[:4]:
+            ck.violation(key, 'large-size replay rejected (the record is judged in the context of the other configurations of its class; replay re-runs the whole large-size family)', dict(cases=[], big=True))
+        ck.cov['large_size_cases'] = len(bcases)
     byid = {c[0]: c for c in cases}
     classes = {}
     for idx, rec in v['rejected']:
@@ -196,3 +201,71 @@ def run_property(pid, calls, tier, seed, replay_path, doc_assumptions=()):
     ck.cov['exhaustive'] = True
     ck.cov['exhaustive_scope'] = 'every (S,d[,x],ncols in 1..3,nphase,nblock,dst,buf) tuple with domain <= %d%s' % (1 << smax, ' (largest domain subsampled 1/3 in the quick tier)' if tier == 'quick' else '')
     return ck.finish()
+
+
+# ---------------------------------------------------------------- large sizes: sampled rows + digest agreement
+def big_replay(ck, wd, calls, seed, tier):
+    rng = vlib.Rng(seed ^ 0xB16)
+    bigd = [8, 10] if tier == 'quick' else [7, 8, 9, 10, 11]
+    extpairs = [(6, 1)] if tier == 'quick' else [(7, 1), (7, 2), (8, 1)]
+    if 'ext' not in calls:
+        extpairs = []
+    if calls == ['ext']:
+        bigd = []
+    maxd = max(bigd + [d + x for d, x in extpairs] + [0])
+    X = [[] for _ in range(maxd + 1)]
+    K = [[] for _ in range(maxd + 1)]
+    need_x = set(bigd) | set(d for d, _ in extpairs)
+    need_k = set(bigd) | set(d + x for d, x in extpairs)
+    for d in sorted(need_x):
+        X[d] = [rng.word() for _ in range(1 << d)]
+    for d in sorted(need_k):
+        n = 1 << d
+        K[d] = sorted(set([0, 1, n // 2, n - 1] + [rng.below(n) for _ in range(2 if tier == 'quick' else 6)]))
+    M = [1, 3, P - 2, 0x123456789ABCDEF]
+    W = parse_roots()
+    inp = os.path.join(wd, 'nttbig_inputs.txt')
+    with open(inp, 'w') as f:
+        for d in sorted(need_x):
+            f.write('X %d %s\n' % (d, ' '.join('0x%x' % x for x in X[d])))
+        f.write('M %d %s\n' % (len(M), ' '.join('0x%x' % m for m in M)))
+        for d in sorted(need_k):
+            f.write('K %d %s\n' % (d, ' '.join(str(k) for k in K[d])))
+    json.dump(dict(maxd=maxd, bigd=bigd, extpairs=[list(p) for p in extpairs], W=[vlib.w64(w) for w in W],
+                   X=[[vlib.w64(x) for x in xs] for xs in X], M=[vlib.w64(m) for m in M], K=K),
+              open(os.path.join(wd, 'nttbig_inputs.json'), 'w'))
+    cases = []
+    cid = 0
+    for call in calls:
+        shapes = [(d, 0) for d in bigd] if call != 'ext' else extpairs
+        for d, x in shapes:
+            for nph in ([2, 3, 4] if tier == 'quick' else [1, 2, 3, 4, 5, d, HUGE]):
+                for nb, nc in ([(1, 1), (2, 3)] if tier == 'quick' else [(1, 1), (2, 3), (3, 4), (1, 2)]):
+                    for dst, buf in [('same', 'null'), ('other', 'caller'), ('null', 'null'), ('other', 'null')]:
+                        if call == 'ext' and dst == 'null':
+                            continue
+                        cid += 1
+                        S = d if cid % 3 else min(d + 1, 11)
+                        cases.append('S %d %s %d %d %d %d %d %d %s %s %d' % (cid, call, S, d, x, nc, nph, nb, dst, buf, [2, 3, 8, 16][cid % 4]))
+    exe = build_driver('drv_ntt')
+    cpath = os.path.join(wd, 'bigcases.txt'); tpath = os.path.join(wd, 'bigtrace.ndjson')
+    open(cpath, 'w').write('\n'.join(cases) + '\n')
+    if os.path.exists(tpath):
+        os.remove(tpath)
+    sh([exe, inp, cpath, tpath], timeout=3000)
+    # keep only the input events of sizes that are used as transform inputs, then the sampled events sorted so that one
+    # stateful validation run sees all configurations of a class together
+    v = validate_trace(wd, 'Trace_NTTBig', 'Trace_NTTBig.cfg', tpath, env={'NTTIN': os.path.join(wd, 'nttbig_inputs.json'), 'NEED_DFT': '1' if 'ntt' in calls else '0', 'NEED_IDFT': '1' if 'intt' in calls else '0', 'NEED_LDE': '1' if 'ext' in calls else '0'}, nsplit=1, xmx='6g', max_rejects=20)
+    ck.add_validation(v, 'large transforms %s (up to 2^%d rows): sampled rows vs definition + digest agreement across %d configurations' % ('/'.join(calls), maxd, len(cases)))
+    for msg in v['infra']:
+        ck.note('infrastructure: ' + msg)
+    out = []
+    for idx, rec in v['rejected']:
+        if rec.get('e') == 'crash':
+            t = rec['case'].split()
+            out.append(('%s -> crash %s %s' % (' '.join(t[2:12]), rec['kind'], rec['code']), rec['case'].strip()))
+        elif rec.get('e') == 'trs':
+            out.append(('%s (large size) -> sampled rows / digest differ from the definition' % case_key(rec), [c for c in cases if c.split()[1] == str(rec['ci'])][0]))
+        else:
+            out.append(('large-size input event rejected', ''))
+    return out, exe, inp, cases
